@@ -479,7 +479,21 @@ func checkInvokeBarriersReset(c *report.Ctx) {
 	if f == nil {
 		return
 	}
-	resets := len(an.Calls(f, func(s string) bool { return s == "L/core.Gate.Reset" || s == gateT+".Reset" }))
+	// a Reset site is counted once per barrier it re-arms: a call on a barrier field is one; a call on the elements of
+	// a local collection filled with barrier fields and looped over (`for _, g := range []Gate{s.a, s.b, s.c} { g.Reset() }`,
+	// also behind a variadic helper) is one per field in the collection
+	resets := 0
+	for _, call := range an.Calls(f, func(s string) bool { return s == "L/core.Gate.Reset" || s == gateT+".Reset" }) {
+		if fs, hd := gateElemFields(call, "L/core.invokeFlowSynchronizationImpl"); hd != nil && len(fs) > 0 {
+			distinct := map[string]bool{}
+			for _, fld := range fs {
+				distinct[fld] = true
+			}
+			resets += len(distinct)
+		} else {
+			resets++
+		}
+	}
 	clears := len(an.Calls(f, func(s string) bool {
 		return s == "L/core.Gate.Clear" || s == gateT+".Clear" || strings.HasSuffix(s, "invokeFlowSynchronizationImpl.Clear")
 	}))
